@@ -120,6 +120,7 @@ def run(ctx):
         fjobs.append(j)
     fres = corpusarm.run_jobs(ctx, fjobs, 'c06_fields', mem_kb=MEM_KB, per_job=60)
     fields = {}
+    small = {}
     for j, r in zip(fjobs, fres):
         f = j['file']
         rr = (r['res'] or {}) if r['outcome'] == 'ok' else {}
@@ -136,6 +137,9 @@ def run(ctx):
         fl = stride(hot, cap * 3 // 4)
         fl = fl + stride(cold, cap - len(fl))
         fields[f] = fl
+        # header-like fields: narrow and early; pairs of them are overwritten together (a reserved code in one field + an unusual value
+        # in another is what a forced decode walks into)
+        small[f] = sorted({(a, b) for a, b, n in named if b <= 8 and a < 1024})[:(12 if th else 8)]
 
     def add(f, fmt, force, cls, mut, cli=False):
         ob = '%s|%s|%s|%s%s' % (os.path.relpath(f, vlib.REPO) if f.startswith(vlib.REPO) else os.path.basename(f), fmt, 'force' if force else 'noforce', cls, '|cli' if cli else '')
@@ -172,6 +176,24 @@ def run(ctx):
                 add(f, fmt0, False, 'field', m)
                 if th and f in pick:
                     add(f, 'probe', False, 'field', m)
+    npair = 0
+    for f in sorted(set(pick) | set(fpick[::4] if th else [])):
+        fmt0 = corpusarm.golden_formats(f, known)[0]
+        # single fields once more, forced (the assert that stops an unforced decode at a reserved code does not stop a forced one)
+        for a, b in fields.get(f, [])[:(None if th else 30)]:
+            for v in (0, 1, 2):
+                add(f, fmt0, True, 'field+force', dict(kind='field', off=a, n=b, val=v))
+        sm = small.get(f, []) if f in pick else []
+        for i in range(len(sm)):
+            for k in range(i + 1, len(sm)):
+                for v1 in (0, 1, 2):
+                    for v2 in (0, 1, 2):
+                        m = dict(kind='field2', off=sm[i][0], n=sm[i][1], val=v1, off2=sm[k][0], n2=sm[k][1], val2=v2)
+                        add(f, fmt0, True, 'field2+force', m)
+                        npair += 1
+                        if th and f in pick:
+                            add(f, fmt0, False, 'field2', m)
+    ctx.cov['field_pairs_forced'] = npair
     gen = generated_files(ctx)
     fmt_list = sorted(known) if th else sorted(known)[ctx.seed % 3::3]
     for name, p in gen.items():
